@@ -281,7 +281,12 @@ class UTPM(Ring, RawAlgorithmsMixIn):
         ybar, dummy, xbar = out
         # print 'xbar =', xbar
         # print 'ybar =', ybar
-        xbar += ybar[sl]
+        if isinstance(xbar, UTPM) and xbar.data.shape != ybar[sl].data.shape:
+            # x was broadcast into the slice: sum the adjoint over the broadcast axes
+            xbar2, ybar2 = cls.broadcast(xbar, ybar[sl])
+            workaround_strides_function(xbar2, ybar2, operator.iadd)
+        else:
+            xbar += ybar[sl]
         ybar[sl].data[...] = 0.
         # print 'funcargs=',funcargs
         # print y[funcargs[0]]
